@@ -413,8 +413,15 @@ impl<'a, S: Clone + Bits> Annot<'a, S> {
                 let (k, site, _) = Self::outcome_kind(&rec.outcome);
                 self.out.push(json!({"ev": "setpd", "pd": i + 1, "kind": k, "site": site}));
             }
-            (Call::Solve(t), Kind::Prm) => self.prm_solve(rec, *t, problems),
-            (Call::Solve(t), _) => self.tree_solve(rec, *t, problems),
+            (Call::SetParams(p), _) => {
+                // the public parameter fields were assigned: every later expectation uses the new values
+                self.params = Params { seed: self.params.seed, ..p.clone() };
+                let (k, site, _) = Self::outcome_kind(&rec.outcome);
+                let (hm, hr) = (self.u(self.params.maxd), self.u(self.params.radius));
+                self.out.push(json!({"ev": "setparams", "kind": k, "site": site, "maxd": hm, "rad": hr, "bias": self.bias_str()}));
+            }
+            (Call::Solve(t), Kind::Prm) | (Call::SolveTicking(t), Kind::Prm) => self.prm_solve(rec, *t, problems),
+            (Call::Solve(t), _) | (Call::SolveTicking(t), _) => self.tree_solve(rec, *t, problems),
             (Call::Construct, _) => self.prm_construct(rec),
         }
     }
